@@ -8,6 +8,7 @@ import (
 	"encoding/binary"
 	"fmt"
 	"io"
+	"sort"
 	"strings"
 	"testing"
 	"time"
@@ -227,7 +228,18 @@ func recvScenario(name string, regs []sendSpec, script []wireSeg, wantErr string
 		if !finished {
 			return []rt.Finding{{Key: "recv:not-finished", What: "muxer did not shut down"}}
 		}
-		for k, w := range want {
+		wantKeys := make([]key, 0, len(want))
+		for k := range want {
+			wantKeys = append(wantKeys, k)
+		}
+		sort.Slice(wantKeys, func(i, j int) bool {
+			if wantKeys[i].p != wantKeys[j].p {
+				return wantKeys[i].p < wantKeys[j].p
+			}
+			return wantKeys[i].r < wantKeys[j].r
+		})
+		for _, k := range wantKeys {
+			w := want[k]
 			g := got[k]
 			// a prefix may be missing only if the muxer stopped because of the offending segment
 			// before the consumer drained its channel? No: deliveries queued before the error must
@@ -244,7 +256,18 @@ func recvScenario(name string, regs []sendSpec, script []wireSeg, wantErr string
 				return []rt.Finding{{Key: "recv:lost-segment", What: fmt.Sprintf("%v got %v want %v", k, g, w)}}
 			}
 		}
-		for k, g := range got {
+		gotKeys := make([]key, 0, len(got))
+		for k := range got {
+			gotKeys = append(gotKeys, k)
+		}
+		sort.Slice(gotKeys, func(i, j int) bool {
+			if gotKeys[i].p != gotKeys[j].p {
+				return gotKeys[i].p < gotKeys[j].p
+			}
+			return gotKeys[i].r < gotKeys[j].r
+		})
+		for _, k := range gotKeys {
+			g := got[k]
 			if len(g) > 0 && len(want[k]) == 0 {
 				return []rt.Finding{{Key: "recv:misrouted", What: fmt.Sprintf("%v received %v", k, g)}}
 			}
